@@ -289,6 +289,12 @@ class InstantBuilder:
                 out.append(ev)
             elif k == 'loop':
                 out.append(self.loop_event(e[1], guards))
+            elif k == 'setitem' and str(e[1]).endswith('.time'):
+                rd, rt = self.reads_of_value(e[3])
+                out.append(Ev('time-write', f'{e[1]}[{e[2]}] = ...', e[4], rd, [], rt, guards, raw=e))
+            elif k == 'opaque-call' and isinstance(e[1], str) and '.time.' in e[1] and e[1].rsplit('.', 1)[1] in (
+                    'pop', 'insert', 'remove', 'clear', 'extend', 'reverse', 'sort'):
+                out.append(Ev('time-write', f'{e[1]}(...)', e[4], [], [], False, guards, raw=e))
             elif k in ('construct', 'opaque-call', 'caught', 'may-div-zero'):
                 continue
             else:
